@@ -183,9 +183,10 @@ def enc(key, v, flavour):
 class ProjectionError(Exception):
     """the real object is not well-formed / not decodable"""
 
-    def __init__(self, field, msg):
+    def __init__(self, field, msg, cls=None):
         super().__init__(msg)
         self.field = field
+        self.cls = cls        # a named class of failure with its own violation key, if any
 
 
 def _frac(x, tol=1e-9, what='val'):
@@ -227,6 +228,8 @@ def dec(key, v):
         return [q(_frac(float(x), tol=0.0051, what='bins')) for x in nums]
     if isinstance(v, (str, np.str_)):
         s = str(v)
+        if key in MISSKEYS and s in ('nan', 'None', '<NA>', 'NaN'):
+            raise ProjectionError(key, f'the missing {key} entry has become the string {s!r}', cls='missing-stringified')
         if len(s) >= 2 and s[0] == _PFX[key] and s[1:].isdigit():
             return int(s[1:])
         raise ProjectionError(key, f'{key} entry {v!r} does not carry the prefix {_PFX[key]!r}')
@@ -246,7 +249,7 @@ def _column(level, key, col, n):
     try:
         return [dec(key, v) for v in vals]
     except ProjectionError as pe:
-        raise ProjectionError(f'{level}/{key}', str(pe))
+        raise ProjectionError(f'{level}/{key}', str(pe), cls=pe.cls)
     except (TypeError, ValueError) as ex:
         raise ProjectionError(f'{level}/{key}', f'cannot decode {key!r}: {ex!r}')
 
@@ -539,6 +542,8 @@ def check_out(e, extra, out_expected):
             try:
                 real = project(p)
             except ProjectionError as pe:
+                if pe.cls:
+                    return f'CLASS/{pe.cls}', f'part {i}: {pe}'
                 return f'parts/{pe.field}', f'part {i}: {pe}'
             f = diff(real, x)
             if f:
@@ -688,6 +693,8 @@ def replay(src, hist, maxobj, flavour, variant=0, scratch=None, layout=None):
                 real = project(heap[o])
             except ProjectionError as pe:
                 where = e['op'] if is_result else f"frame/{e['op']}"
+                if pe.cls and is_result:     # every such operation goes through merge_datasets
+                    return k, f'merge_datasets/{pe.cls}', str(pe)
                 return k, f'{where}/{pe.field}', str(pe)
             f = diff(real, spec_ob)
             if f:
@@ -705,6 +712,8 @@ def replay(src, hist, maxobj, flavour, variant=0, scratch=None, layout=None):
                     out = [expected(x) for x in out]
                 res = check_out(e, extra, out)
                 if res:
+                    if res[0].startswith('CLASS/'):
+                        return k, f"merge_datasets/{res[0][6:]}", res[1]
                     return k, f"{e['op']}/out/{res[0]}", res[1]
         prev = post
     return None
@@ -796,7 +805,7 @@ def random_trace(rng, src, const, flavour, length, ops, scratch=None, layout='C'
                     continue
                 e['o2'] = int(rng.integers(1, 3))
             elif op == 'nested_odd_even':
-                e['by2'] = str(rng.choice(okeys))
+                e['by2'] = str(rng.choice([k for k in okeys if k not in MISSKEYS]))
                 col2 = a['od'][e['by2']]
                 if any(len({repr(col2[i]) for i in g}) < 2 for g in gs):
                     continue
@@ -912,7 +921,8 @@ def random_trace(rng, src, const, flavour, length, ops, scratch=None, layout='C'
                 out = [{'label': dec(e['by'], uniq[g]),
                         'cells': [[q(_frac(x)) for x in ten[g, c]] for c in range(ten.shape[1])]} for g in range(len(uniq))]
         except ProjectionError as pe:
-            events.append({'ev': e, 'post': None, 'error': f'projection/{pe.field}: {pe}', 'key': f'{op}/{pe.field}'})
+            events.append({'ev': e, 'post': None, 'error': f'projection/{pe.field}: {pe}',
+                           'key': f'merge_datasets/{pe.cls}' if pe.cls else f'{op}/{pe.field}'})
             break
         if extra is not None and extra[0] == 'df':
             msg = check_df(extra[1], a, e['by'])
